@@ -9,7 +9,8 @@
 (*           initial CONNECTED), opens (connection attempts), bad (calls   *)
 (*           whose message cannot be sent), clean (no fault was injected), *)
 (*           stale (packets written to a link after a newer connection    *)
-(*           had been adopted: they never reach the gateway)]              *)
+(*           had been adopted: they never reach the gateway), allowed     *)
+(*           (connection attempts the session itself asked for)]           *)
 (***************************************************************************)
 EXTENDS N2KSend, Json, IOUtils, TLC
 
@@ -29,7 +30,8 @@ Verdict(r) ==
      ELSE IF \E i \in calls : i \notin bad /\ i \notin failed /\ r.n[i] > 0 /\ r.complete
                                /\ Cardinality({k \in 1..Len(r.wire) : r.wire[k][1] = i}) # r.n[i]
           THEN "message-not-fully-written"
-     ELSE IF r.clean /\ (Len(r.statuses) > 0 \/ r.opens > 1) THEN "harmless-send-disturbed-the-connection"
+     \* (allowed: the session's own connect() call - 1, or 0 for a client that was never connected)
+     ELSE IF r.clean /\ (Len(r.statuses) > 0 \/ r.opens > r.allowed) THEN "harmless-send-disturbed-the-connection"
      ELSE IF failed # {} /\ ~(\E k \in 1..Len(r.statuses) : r.statuses[k] = "DISCONNECTED") THEN "write-failure-not-reported"
      ELSE IF failed # {} /\ r.opens < 2 THEN "write-failure-without-reconnection"
      ELSE "ok"
